@@ -49,6 +49,7 @@ type QPlan struct {
 	Tape     []uint16 `json:"tape,omitempty"`
 	Strategy int      `json:"strategy,omitempty"`
 	Seq      uint32   `json:"seq"`
+	Inner    bool     `json:"inner_yields,omitempty"` // pre-empt inside the ID caches' critical sections
 }
 
 func (p *QPlan) Valid() bool {
@@ -106,10 +107,15 @@ var qTemplates = []qTemplate{
 			key = `"k` + strconv.Itoa(int(v>>20)%3) + `"`
 		}
 		if v&4 == 4 && v&2 == 2 {
-			key = `6B31016B32` // two keys separated by 0x01
+			// several keys separated by 0x01, some of them repeated
+			key = []string{`6B31016B32`, `6B31016B31016B32`, `6E6574016E65740165786563`, `6B32016B31016B32`}[int(v>>28)%4]
+		}
+		sysno := qSyscalls[int(v>>3)%len(qSyscalls)]
+		if v&(1<<30) != 0 {
+			sysno = int(v>>3) % 335 // any x86_64 syscall number
 		}
 		return fmt.Sprintf(`arch=c000003e syscall=%d success=%s exit=%s a0=7ffd5c a1=0 a2=1b6 a3=24 items=%d ppid=%d pid=%d auid=%s uid=%s gid=%s euid=%s suid=%s fsuid=%s egid=%s sgid=%s fsgid=%s tty=pts0 ses=%d comm="%s" exe="%s" subj=unconfined_u:unconfined_r:unconfined_t:s0-s0:c0.c1023 key=%s`,
-			qSyscalls[int(v>>3)%len(qSyscalls)], succ, exit, int(v>>8)%4, 1+int(v>>9)%50, 100+int(v>>10)%900,
+			sysno, succ, exit, int(v>>8)%4, 1+int(v>>9)%50, 100+int(v>>10)%900,
 			pick(v, 11, qUIDs), pick(v, 13, qUIDs), pick(v, 15, qUIDs), pick(v, 17, qUIDs), pick(v, 13, qUIDs), pick(v, 13, qUIDs), pick(v, 15, qUIDs), pick(v, 15, qUIDs), pick(v, 15, qUIDs),
 			1+int(v>>19)%9, pick(v, 21, qComms), pick(v, 21, qExes), key)
 	}},
@@ -230,10 +236,29 @@ func (r QRec) line(seq uint32) (auparse.AuditMessageType, string) {
 func GenQPlan(r *core.Rng) *QPlan {
 	p := &QPlan{Seq: core.Pick(r, uint32(1), 0, 1<<32-1, r.U32())}
 	ng := r.Range(1, 8)
+	// per-run pool of record types for "special first record + SYSCALL" groups:
+	// re-using a type within one run makes events share normalisation entries.
+	var specials []uint16
+	for k := r.Range(1, 3); k > 0; k-- {
+		specials = append(specials, uint16(core.Pick(r, r.Range(1100, 1140), r.Range(1300, 1340), r.Range(1400, 1420), r.Range(2100, 2115), r.Range(1700, 1702), r.Range(2300, 2310), r.Range(1000, 2999))))
+	}
+	sysVar := func() uint32 {
+		// spread over syscall classes (open/unlink/connect/execve/setuid/...)
+		return r.U32() | 1<<30
+	}
 	for g := 0; g < ng; g++ {
 		var recs []QRec
 		v := func() uint32 { return r.U32() }
-		switch r.Weighted(50, 25, 8, 6, 6, 5) {
+		switch r.Weighted(40, 22, 8, 6, 6, 5, 16) {
+		case 6: // a user-space / anomaly record of an arbitrary type followed by its SYSCALL
+			recs = append(recs, QRec{Tmpl: core.Pick(r, 7, 8, 12, 13, 10), Typ: specials[r.Intn(len(specials))], Var: v()})
+			recs = append(recs, QRec{Tmpl: 0, Var: sysVar()})
+			if r.Chance(1, 3) {
+				recs = append(recs, QRec{Tmpl: 2, Var: v()})
+			}
+			if r.Chance(1, 3) {
+				recs = append(recs, QRec{Tmpl: 5, Var: v()})
+			}
 		case 0: // syscall group
 			recs = append(recs, QRec{Tmpl: core.Pick(r, 0, 0, 0, 17), Var: v()})
 			if r.Chance(1, 2) {
@@ -263,6 +288,9 @@ func GenQPlan(r *core.Rng) *QPlan {
 			}
 		case 1: // single record
 			recs = append(recs, QRec{Tmpl: core.Pick(r, 7, 8, 9, 10, 11, 12, 13, 19, 6, 0, 5), Var: v()})
+			if r.Chance(1, 4) {
+				recs[0].Typ = specials[r.Intn(len(specials))]
+			}
 		case 2: // AVC + SYSCALL
 			recs = append(recs, QRec{Tmpl: 6, Var: v()}, QRec{Tmpl: 0, Var: v()})
 			if r.Chance(1, 2) {
@@ -304,6 +332,7 @@ func GenQPlan(r *core.Rng) *QPlan {
 		p.Tape = append(p.Tape, uint16(r.Intn(1<<16)))
 	}
 	p.Strategy = r.Intn(2)
+	p.Inner = nt >= 2 && r.Chance(1, 2)
 	return p
 }
 
@@ -319,11 +348,12 @@ const (
 	qpConcurrentTasks
 	qpSyscallNormAppend
 	qpGarbage
+	qpLockBlocked
 	nQProbes
 )
 
 var qProbeNames = []string{"same_messages_coalesced_again", "resolution_after_cache_expiry", "coalesce_returned_error", "event_with_warnings",
-	"execve_args_extracted", "event_with_paths", "first_Data_call_inside_coalesce", "ids_resolved_to_names", "two_or_more_tasks", "ecs_category_merged_from_syscall_norm", "garbage_group"}
+	"execve_args_extracted", "event_with_paths", "first_Data_call_inside_coalesce", "ids_resolved_to_names", "two_or_more_tasks", "ecs_category_merged_from_syscall_norm", "garbage_group", "task_blocked_on_cache_lock"}
 
 var qFaultNames = []string{"cache_expiry_clock_jump", "repeated_call_on_same_input", "concurrent_tasks", "malformed_records"}
 
@@ -408,6 +438,7 @@ func ExecQPlan(p *QPlan, trace bool) *core.Result {
 	h.Reset()
 	start := time.Now()
 	// ---- setup, in the driver goroutine, before any task exists ----
+	resetCoalesceGlobals()
 	groups := make([]*qGroup, len(p.Groups))
 	for gi, recs := range p.Groups {
 		g := &qGroup{msgs: parseGroup(recs, p.Seq+uint32(gi))}
@@ -506,6 +537,7 @@ func ExecQPlan(p *QPlan, trace bool) *core.Result {
 			}
 			for oi, op := range ops {
 				t.Yield("op")
+				t.Local = 0
 				h.Rec(evQOp, int64(oi), int64(op.K), int64(op.G), int64(time.Since(start)), "")
 				switch op.K {
 				case qCoalesce:
@@ -575,14 +607,17 @@ func ExecQPlan(p *QPlan, trace bool) *core.Result {
 			}
 		})
 	}
+	setInnerYields(p.Inner)
 	setActiveSched(sc)
 	verdict := sc.Run()
 	setActiveSched(nil)
+	setInnerYields(false)
 	res.Verdict = verdict
 	res.SchedHash = sc.SchedHash
 	res.Steps = sc.Steps
 	res.SimNs = int64(time.Since(start))
 	res.Faults[0] += sc.ClockJumps
+	res.Probes[qpLockBlocked] += sc.LockBlocks
 	evs := h.Events()
 	seenCoalesce := map[[2]int]int{}
 	nops := 0
